@@ -161,6 +161,36 @@ pub fn explore(opts: &Opts) -> Explored {
                 }
             }
         }
+        // refusals: nested parts of equal rank and element count but different dimensions
+        if d.len() >= 3 && d[0] >= 2 {
+            let inner = d[1..].to_vec();
+            let mut perms: Vec<Vec<usize>> = Vec::new();
+            for i in 0..inner.len() {
+                for j in i + 1..inner.len() {
+                    if inner[i] != inner[j] {
+                        let mut q = inner.clone();
+                        q.swap(i, j);
+                        perms.push(q);
+                    }
+                }
+            }
+            for q in perms {
+                for which in [0usize, d[0] - 1] {
+                    let case = || format!("nested parts of {} where part {} has the permuted dimensions {}", name, which, fmt_dims(&q));
+                    if l.want(&case) {
+                        let dd = d.clone();
+                        let qq = q.clone();
+                        must_refuse(l, "refuse", &case, move || {
+                            let mut parts = Vec::new();
+                            for i in 0..dd[0] {
+                                parts.push(Array::from(if i == which { qq.clone() } else { dd[1..].to_vec() }));
+                            }
+                            Array::from(parts).dimensions().to_vec()
+                        });
+                    }
+                }
+            }
+        }
         // indexing: every multi-index and every flat index
         let case = || format!("index every element of {}", name);
         if l.want(&case) {
